@@ -95,12 +95,12 @@ Theorem C14_mean_is_arithmetic_mean : forall ug hg tcols names rows tx tg tr m,
   estimate ug hg tcols names rows None = Some (tx, tg, tr, m) ->
   exists sel, resolve tcols names = Some sel /\
   let ks := keys_of ug rows in
-  tx = map fst ks /\ tg = (if ug then Some (map snd ks) else None) /\ tr = tcols /\ length m = length ks /\
+  tx = map fst ks /\ tg = (if ug then Some (map (fun k => grp_code (snd k)) ks) else None) /\ tr = tcols /\ length m = length ks /\
   StronglySorted klt ks /\ NoDup ks /\
-  (forall k, In k ks <-> exists r, In r rows /\ key_of ug r = Some k) /\
+  (forall k, In k ks <-> exists r, In r rows /\ key_of ug r = k) /\
   forall i k, nth_error ks i = Some k ->
     let recs := members ug k rows in
-    recs <> [] /\ (forall r, In r recs <-> In r rows /\ key_of ug r = Some k) /\
+    recs <> [] /\ (forall r, In r recs <-> In r rows /\ key_of ug r = k) /\
     nth_error m i = Some (Some (map (fun j => sumQ (map (fun r => nth j (t_val r) 0) recs) / inject_Z (Z.of_nat (length recs))) sel)).
 Proof. exact estimate_groups_means. Qed.
 Print Assumptions C14_mean_is_arithmetic_mean.
@@ -120,8 +120,16 @@ Theorem C14_absent_is_missing : forall ug hg tcols names rows gtx gtg tx tg tr m
 Proof. exact estimate_absent_missing. Qed.
 Print Assumptions C14_absent_is_missing.
 
-(** ... and a phenotyped taxon gets the arithmetic mean over all of its records, PROVIDED no group column is used or
-    every taxon's records lie in a single, non-null group ([single_key]).  Without the guard the clause is false: *)
+(** ... a phenotyped taxon is never reported missing, whatever its group labels (full strength since the repair of
+    C14-null-group-drops-records, commit 187dc882: null group labels are keys of their own) ... *)
+Theorem C14_phenotyped_not_missing : forall ug hg tcols names rows gtx gtg tx tg tr m,
+  estimate ug hg tcols names rows (Some (Some gtx, gtg)) = Some (tx, tg, tr, m) ->
+  forall i x, nth_error gtx i = Some x -> (exists r, In r rows /\ t_taxa r = x) -> exists v, nth_error m i = Some (Some v).
+Proof. exact estimate_phenotyped_not_missing. Qed.
+Print Assumptions C14_phenotyped_not_missing.
+
+(** ... and it gets the arithmetic mean over all of its records, PROVIDED no group column is used or every taxon's
+    records carry one group label, null or not ([single_key]).  Without the guard the clause is false: *)
 Theorem C14_aligned_to_genotype_order_partial : forall ug hg tcols names rows gtx gtg tx tg tr m,
   estimate ug hg tcols names rows (Some (Some gtx, gtg)) = Some (tx, tg, tr, m) ->
   tx = gtx /\ tg = gtg /\ tr = tcols /\ length m = length gtx /\
@@ -146,24 +154,25 @@ Proof. exact estimate_join_refuted. Qed.
 Print Assumptions C14_aligned_to_genotype_order_refuted.
 
 (** what the join does with a group column in general: among the groups in which a taxon was recorded, the one with
-    the greatest group id supplies the value (the faithful reading of dict(zip(...)) over the sorted group table) *)
+    the greatest group label (integers in order, the null label last) supplies the value (the faithful reading of dict(zip(...)) over the sorted group table) *)
 Theorem C14_join_takes_last_group : forall hg tcols names rows gtx gtg tx tg tr m,
   estimate true hg tcols names rows (Some (Some gtx, gtg)) = Some (tx, tg, tr, m) ->
   exists sel, resolve tcols names = Some sel /\
   forall i x g, nth_error gtx i = Some x ->
-    (exists r, In r rows /\ t_taxa r = x /\ t_grp r = Some g) ->
-    (forall r g', In r rows -> t_taxa r = x -> t_grp r = Some g' -> (g' <= g)%Z) ->
+    (exists r, In r rows /\ t_taxa r = x /\ t_grp r = g) ->
+    (forall r, In r rows -> t_taxa r = x -> ole (t_grp r) g) ->
     nth_error m i = Some (Some (mean_rows sel (members true (x, g) rows))).
 Proof. exact estimate_join_last_group. Qed.
 Print Assumptions C14_join_takes_last_group.
 
-(** finding C14-null-group-drops-records: records with a null group are dropped, the phenotyped taxon is reported missing *)
-Theorem C14_phenotyped_not_missing_refuted :
+(** repaired defect C14-null-group-drops-records: the formula used before commit 187dc882 (groupby dropna=True, modelled by
+    [estimate_dropna]) reported a phenotyped taxon of an ungrouped population as missing *)
+Theorem C14_phenotyped_not_missing_dropna_refuted :
   exists (rows : list trow) (gtx : list str) tx tg tr m,
-    estimate true true ["y"%string] ["y"%string] rows (Some (Some gtx, None)) = Some (tx, tg, tr, m) /\
+    estimate_dropna true true ["y"%string] ["y"%string] rows (Some (Some gtx, None)) = Some (tx, tg, tr, m) /\
     exists i x, nth_error gtx i = Some x /\ (exists r, In r rows /\ t_taxa r = x) /\ nth_error m i = Some None.
-Proof. exact estimate_null_group_refuted. Qed.
-Print Assumptions C14_phenotyped_not_missing_refuted.
+Proof. exact estimate_dropna_refuted. Qed.
+Print Assumptions C14_phenotyped_not_missing_dropna_refuted.
 
 (** non-vacuity: a 2-taxon, 1-trait, 2-environment trial (1 and 2 replicates) with zero noise produces records; the
     label/shape hypotheses hold; a table satisfies [single_key] with a group column; (0,1] targets exist *)
@@ -181,6 +190,6 @@ Proof.
   split; [split; intros l H; inversion H; reflexivity|]. split; [reflexivity|].
   split; [repeat constructor|]. split; [repeat constructor; reflexivity|].
   split; [repeat constructor|]. split.
-  - intros r1 r2 H1 H2. cbn in H1, H2. destruct H1 as [<-|[<-|[<-|[]]]], H2 as [<-|[<-|[<-|[]]]]; cbn; intros E; try discriminate; split; try reflexivity; discriminate.
+  - intros r1 r2 H1 H2. cbn in H1, H2. destruct H1 as [<-|[<-|[<-|[]]]], H2 as [<-|[<-|[<-|[]]]]; cbn; intros E; try discriminate; reflexivity.
   - split; [eexists; vm_compute; reflexivity|]. repeat constructor; cbn; lra.
 Qed.
